@@ -372,6 +372,20 @@ def check(report: Report, repo: Repo) -> None:
             if p not in it.param_names(f):
                 report.add("R5-params", f"{FUNCTIONAL}::{func}::{p}", False, "unsupported_args names a non-parameter")
     check_docs(report, repo)
+    # the forward value of every function goes through scale.py's primitive: its contract (value = factor x
+    # input as a *new* tensor, no aliasing of the argument, zero/negative factors as given) is part of this property
+    from .c02 import check_primitives
+
+    check_primitives(report, repo)
+    # reduction values the library does not implement must be rejected, not silently computed as something else
+    for func, sch_fn in (("cross_entropy", SC.cross_entropy_schemas), ("mse_loss", SC.mse_schemas)):
+        base_sch = sch_fn("quick")[0]
+        for red in ("none", "batchmean"):
+            a2 = fill_args(it, it.get_global(FUNCTIONAL, func), dict(base_sch.args, reduction=red))
+            summ = summarise(repo, func, SC.Schema(f"{func}[reduction={red}]", a2), interp=it)
+            raised = [e["exc"] for e in summ.events if e.kind == "raise"]
+            ok = summ.error is None and not summ.cases and bool(raised)
+            report.add("R5-params", f"{FUNCTIONAL}::{func}::reduction", ok if summ.error is None else None, f"reduction='{red}' is not implemented by the unit-scaled loss: it must be rejected with an error, not silently treated as another reduction", f"returns {fmt(summ.result)[:120]}" if summ.cases else f"raises {raised}", "raises")
     report.note("public_functions", PUBLIC_FUNCTIONS)
     report.note("summaries", n_summ)
     report.note("scale_sites_evaluated", n_sites)
